@@ -42,8 +42,9 @@ def exceptions_propagate(run, model):
             # break/continue of a loop that lies wholly inside the finally block do not leave it
             esc = [x for x in esc if isinstance(x, ast.Return) or not any(isinstance(l_, (ast.For, ast.While)) and any(y is x for y in ast.walk(l_)) for st in t.finalbody for l_ in ast.walk(st))]
             run.inst('EXC.transparent', f, 'finally block does not leave the function: ' + norm(t)[:60], not esc,
-                     '' if not esc else ('%s leaves its `finally` block with `%s`: an exception in flight - the HsmTopologyException raised by the processor for an impossible chart - is '
-                                         'discarded there, the call returns normally and the chart is left half-entered' % (f.qualname, norm(esc[0]))),
+                     '' if not esc else ('%s leaves its `finally` block with `%s`: an exception in flight - the HsmTopologyException raised by the processor for an impossible chart, or '
+                                         'whatever a user action raised - is discarded there, the call returns normally and the step goes on (or ends) as if nothing had happened, which the '
+                                         'same chart on the plain processor does not do' % (f.qualname, norm(esc[0]))),
                      node=esc[0] if esc else t, obligation=True)
             body_calls = [c for st in t.body for c in ast.walk(st) if isinstance(c, ast.Call)]
             forwards = [c for c in body_calls if (isinstance(c.func, ast.Name) and f.parent is not None and c.func.id in f.parent.params)
@@ -62,6 +63,52 @@ def exceptions_propagate(run, model):
 
 
 
+def class_attributes(model, cls):
+    """names an instance of `cls` itself is sure to have: methods, class-level names and attributes stored through the receiver in methods of cls and of its bases"""
+    out = set()
+    for k in model.mro(cls):
+        out |= set(k.methods) | set(k.consts)
+        for st in k.node.body:
+            if isinstance(st, ast.Assign):
+                out |= {t.id for t in st.targets if isinstance(t, ast.Name)}
+        for m in k.methods.values():
+            if not m.params:
+                continue
+            for n in ast.walk(m.node):
+                if isinstance(n, ast.Attribute) and isinstance(n.ctx, ast.Store) and isinstance(n.value, ast.Name) and n.value.id == m.params[0]:
+                    out.add(n.attr)
+                elif isinstance(n, ast.Call) and isinstance(n.func, ast.Name) and n.func.id == 'setattr' and len(n.args) == 3 and isinstance(n.args[1], ast.Constant):
+                    out.add(n.args[1].value)
+    return out
+
+
+def exceptions_constructible(run, model):
+    """EXC.constructible: the message of the HsmTopologyException is built before the raise; whatever it reads through the chart must exist on a chart of the class
+    that raises (the plain HsmEventProcessor has no name, no queues, no spy buffers) - otherwise an AttributeError leaves the processor in its place"""
+    run.rule('EXC.constructible', 'the arguments of a raised HsmTopologyException read only attributes that the raising class (or a base of it) defines')
+    n = 0
+    for f in model.all_funcs():
+        k = f.owner_class
+        if k is None or f.module.name != 'hsm' or not f.params:
+            continue
+        attrs = None
+        for r in walk_shallow(f.node):
+            if not (isinstance(r, ast.Raise) and r.exc is not None and any(isinstance(x, ast.Name) and x.id == 'HsmTopologyException' for x in ast.walk(r.exc))):
+                continue
+            n += 1
+            if attrs is None:
+                attrs = class_attributes(model, k)
+            missing = sorted({x.attr for x in ast.walk(r.exc) if isinstance(x, ast.Attribute) and isinstance(x.ctx, ast.Load) and isinstance(x.value, ast.Name)
+                              and x.value.id == f.params[0] and x.attr not in attrs})
+            if missing:
+                where = sorted(c.name for c in model.classes.values() if any(a in class_attributes(model, c) for a in missing) and k in model.mro(c))
+            run.inst('EXC.constructible', f, 'exception arguments read only what a %s has: %s' % (k.name, norm(r.exc)[:70]), not missing,
+                     '' if not missing else ('%s builds its HsmTopologyException from %s.%s, which %s and its bases never set (only %s do): on a chart of the plain class the '
+                                             'attribute lookup fails first and an AttributeError leaves the processor instead of the HsmTopologyException the caller is told to expect'
+                                             % (f.qualname, f.params[0], missing[0], k.name, ', '.join(where) or 'no class of the package')), node=r, obligation=True)
+    run.floor('raise HsmTopologyException sites', n, 8)
+
+
 def check(run, model, tier):
     run.explanation = ('Loop inventory with a termination argument per loop, a None-discipline dataflow rule over the handler-call sites, a sibling '
                        'comparison of the two initial-transition walks and the zone-domain index obligations of init. A hang or a silently wrong '
@@ -78,6 +125,7 @@ def check(run, model, tier):
     # fall through to the entry loop with index -1 (it would enter a stale state and ask for the initial transition again, for ever)
     hsmrules.record_buffer_obligations(run, model, 'dispatch')
     exceptions_propagate(run, model)
+    exceptions_constructible(run, model)
     run.assume('H1: top answers IGNORED to SUPER queries and does not move the cursor; a well-formed handler moves the cursor to its parent')
     run.rule('HSM-PROGRESS.selfinit', 'an initial transition that targets the state taking it leads to a raise before the next INIT query and before the method returns (abstract run under that assumption)')
     n_si = hsmrules.selfinit_rule(run, model)
